@@ -488,7 +488,7 @@ def search(run: Run):
 def main():
     run = Run(
         PID,
-        ["RV.Props.C13"],
+        ["RV.Props.C13", "RV.Bridge.Geometry"],
         ["RV/Model/Forces.lean"],
         "Lean 4 theorems (the third-body expression equals the direct formula; the relativistic term equals the Schwarzschild correction; cannonball radiation pressure in direction, "
         "magnitude and shadow; the sum contains exactly the configured terms; the Cunningham recursion gives the textbook J2 gradient; Earth-fixed sandwich with an orthogonal matrix; "
